@@ -415,7 +415,11 @@ func getters(c psatoken.IClaims) map[string]Ret {
 
 // ---------- concretisation ----------
 
-type Conc struct{ r *rand.Rand }
+type Conc struct {
+	r    *rand.Rand
+	ar   *byteArena // optional: aliased byte-string arguments (claims-hist)
+	minW int        // optional: minimum width of every CBOR head in assembled tokens (non-preferred serialisation)
+}
 
 func (c Conc) bytes(n, b0 int) []byte {
 	b := make([]byte, n)
